@@ -38,7 +38,19 @@ type impTarget struct {
 	elem               string   // name of a type treated as an ABSTRACT element type F with operations mul / one / inv (field level)
 	abstract           []string // package-local functions called as ABSTRACT parameters (hash arguments dropped); their source text is
 	// emitted as `abstractSrc` so that an edit of them breaks the proofs that pin it
+	mode   string     // "h2f": Hash / SetBigInt of a field package (imp_h2f.go): parameters zeroF / setBigIntF / ExpandMsgXmd instead of mul / one / inv
+	grp    string     // name of a point type treated as an ABSTRACT group element type G with operations add / dbl / neg / zero (imp_grp.go)
+	inf    string     // name of the package-level variable holding the point at infinity (read as `zero`)
+	ext    bool       // extended parameter set (JointScalarMultiplication / mulGLV): fromAffine, phi, split, limbs, frBits, elBitLen
+	aff    string     // name of the affine point type (abstract type A, only converted by FromAffine)
+	digest bool       // the MiMC digest state machine (imp_digest.go): struct over the abstract element type, field primitives / codecs as parameters
+	guards []impGuard // accepted alternative layout: exported function = panic guard around an unexported body
 }
+
+// impGuard: when the file declares `inner`, the function `name` must have EXACTLY the text `text` (a wrapper that calls
+// `inner` with its own arguments and turns a panic into the result false: panics are not modelled, so the wrapper is the
+// identity on every run the translation speaks about) and `inner` is translated under the name `name`. Anything else: exit.
+type impGuard struct{ name, inner, text string }
 
 var impTargets = []impTarget{
 	{dir: "fiat-shamir", file: "transcript.go", ns: "FiatShamir", out: "Imp/Transcript.lean",
@@ -47,8 +59,13 @@ var impTargets = []impTarget{
 	{dir: "ecc/bn254/fr", file: "element.go", ns: "Exp_bn254_fr", out: "Imp/Exp_bn254_fr.lean", funcs: []string{"Exp"}, elem: "Element"},
 	{dir: "field/hash", file: "hashutils.go", ns: "HashUtils", out: "Imp/ExpandMsgXmd.lean", funcs: []string{"min", "ExpandMsgXmd"}},
 	{dir: "accumulator/merkletree", file: "verify.go", ns: "MerkleVerify", out: "Imp/MerkleVerify.lean", funcs: []string{"VerifyProof"},
-		abstract: []string{"leafSum", "nodeSum", "sum"}},
+		abstract: []string{"leafSum", "nodeSum", "sum"},
+		guards:   []impGuard{{"VerifyProof", "verifyProof", "func VerifyProof(h hash.Hash, merkleRoot []byte, proofSet [][]byte, proofIndex uint64, numLeaves uint64) (ok bool) { defer func() { if r := recover(); r != nil { ok = false } }() return verifyProof(h, merkleRoot, proofSet, proofIndex, numLeaves) }"}}},
+	{dir: "ecc/bn254/fr/mimc", file: "mimc.go", ns: "Mimc_bn254", out: "Imp/Mimc_bn254.lean", funcs: digestFuncs, digest: true},
 }
+
+// methods of the MiMC digest (and the package-level Sum), in dependency order
+var digestFuncs = []string{"Reset", "checksum", "Sum", "Write", "SetState", "State", "WriteString", "pkgSum"}
 
 // ---------------------------------------------------------------------------------------------- types
 
@@ -74,7 +91,7 @@ func (t *ity) eq(u *ity) bool {
 	if t == nil || u == nil {
 		return t == u
 	}
-	if t.k != u.k || t.name != u.name {
+	if t.k != u.k || t.name != u.name || t.n != u.n {
 		return false
 	}
 	if t.elem != nil || u.elem != nil {
@@ -103,21 +120,38 @@ type impField struct {
 }
 
 type impPkg struct {
-	tg         impTarget
-	fset       *token.FileSet
-	structs    map[string][]impField
-	order      []string          // struct names in source order
-	errVars    map[string]string // sentinel name -> message
-	errOrd     []string
-	funcs      map[string]*ast.FuncDecl
-	absDecl    map[string]*ast.FuncDecl
-	absCalled  []string
-	translated map[string]*impSig // pure package-local functions translated so far (callable from later ones)
+	tg            impTarget
+	fset          *token.FileSet
+	structs       map[string][]impField
+	order         []string          // struct names in source order
+	errVars       map[string]string // sentinel name -> message
+	errOrd        []string
+	funcs         map[string]*ast.FuncDecl
+	methods       map[string]*ast.FuncDecl // "RecvType.Name" -> declaration (functions of the target file)
+	absDecl       map[string]*ast.FuncDecl
+	absCalled     []string
+	loopInfos     []impLoopInfo
+	grpTranslated map[string]*impSig // methods of the point type translated so far (receiver by value, result = new receiver)
+	translated    map[string]*impSig // pure package-local functions translated so far (callable from later ones)
+	file          *ast.File
+	digMethods    map[string]*impSig // digest mode: methods of the receiver struct translated so far (receiver passed and returned by value)
+	consts        map[string]string  // package-level integer constants `Name = literal` (mode h2f)
+	constsUsed    []string
+	modulus       string             // mode h2f: the literal of `_modulus.SetString("…", 16)` in init(), as a Lean hexadecimal numeral
+	imports       map[string]string  // local package name -> import path
+	elemMeth      map[string]*impSig // methods `func (z *Element) M(…) *Element` of this target translated so far (callable as X.M(…))
+}
+
+// helper defs of loops in generation order (inner loops first): what the all-packages-equal proofs need
+type impLoopInfo struct {
+	name, kind string // kind: "range" (structural recursion on the list) / "for" (fuel recursion)
+	ro, S      []string
 }
 
 type impSig struct {
-	params []*ity
-	result *ity
+	params  []*ity
+	result  *ity
+	results []*ity // methods: all results
 }
 
 var impAbsParams, impAbsArgs string // abstract function parameters carried by every def of the current target
@@ -159,6 +193,10 @@ func (p *impPkg) goType(e ast.Expr) *ity {
 			return tyByte
 		case "error":
 			return tyErr
+		case "int64": // mode h2f only: an Int in [-2^63, 2^63), every operation wraps explicitly
+			if p.tg.mode == "h2f" {
+				return &ity{k: "int64"}
+			}
 		}
 		if _, ok := p.structs[v.Name]; ok {
 			return &ity{k: "struct", name: v.Name}
@@ -166,12 +204,27 @@ func (p *impPkg) goType(e ast.Expr) *ity {
 		if p.tg.elem != "" && v.Name == p.tg.elem {
 			return &ity{k: "elem"}
 		}
+		if p.tg.grp != "" && v.Name == p.tg.grp {
+			return &ity{k: "grp"}
+		}
+		if p.tg.aff != "" && v.Name == p.tg.aff {
+			return &ity{k: "aff"}
+		}
 	case *ast.SelectorExpr:
+		if id, ok := v.X.(*ast.Ident); ok && p.tg.digest && id.Name == "fr" && v.Sel.Name == "Element" {
+			return &ity{k: "elem"}
+		}
+		if id, ok := v.X.(*ast.Ident); ok && p.tg.digest && id.Name == "fr" && v.Sel.Name == "ByteOrder" {
+			return &ity{k: "abs", name: "BO"}
+		}
 		if id, ok := v.X.(*ast.Ident); ok && id.Name == "hash" && v.Sel.Name == "Hash" {
 			return tyHash
 		}
 		if id, ok := v.X.(*ast.Ident); ok && id.Name == "big" && v.Sel.Name == "Int" {
 			return &ity{k: "bigint"}
+		}
+		if id, ok := v.X.(*ast.Ident); ok && id.Name == "fr" && v.Sel.Name == "Element" && p.tg.ext {
+			return &ity{k: "frel"} // the raw words of an fr.Element ([Limbs]uint64) as a list of naturals
 		}
 		if id, ok := v.X.(*ast.Ident); ok && id.Name == "sync" && v.Sel.Name == "WaitGroup" {
 			return &ity{k: "waitgroup"}
@@ -199,12 +252,18 @@ func (p *impPkg) goType(e ast.Expr) *ity {
 		if v.Len == nil {
 			return &ity{k: "slice", elem: p.goType(v.Elt)}
 		}
+		if n := litInt(v.Len); n != nil && p.tg.grp != "" && n.IsInt64() && n.Int64() > 0 && n.Int64() < 1024 {
+			// fixed-size array of group elements: a list of that length (a value; element writes are value updates)
+			if t := p.goType(v.Elt); t.k == "grp" || t.k == "frel" {
+				return &ity{k: "array", n: int(n.Int64()), elem: t}
+			}
+		}
 	case *ast.MapType:
 		if k := p.goType(v.Key); k.k == "string" {
 			return &ity{k: "map", elem: p.goType(v.Value)}
 		}
 	case *ast.StarExpr:
-		if t := p.goType(v.X); t.k == "struct" || t.k == "elem" {
+		if t := p.goType(v.X); t.k == "struct" || t.k == "elem" || t.k == "grp" || t.k == "aff" {
 			return &ity{k: "ptr", elem: t}
 		} else if t.k == "bigint" { // *big.Int is read as an exact integer VALUE (mutating methods only on fresh objects)
 			return t
@@ -225,11 +284,21 @@ func (p *impPkg) lty(t *ity, qual bool) string {
 		return "Nat"
 	case "nslice":
 		return "Option " + p.ltyA(t.elem, qual)
-	case "absfn":
+	case "absfn", "abs":
 		return t.name
 	case "elem":
 		return "F"
-	case "bigint":
+	case "grp":
+		return "G"
+	case "aff":
+		return "A"
+	case "frel":
+		return "List Nat"
+	case "bigpair":
+		return "Int × Int"
+	case "array":
+		return "List " + p.ltyA(t.elem, qual)
+	case "bigint", "int64":
 		return "Int"
 	case "bool":
 		return "Bool"
@@ -255,6 +324,9 @@ func (p *impPkg) lty(t *ity, qual bool) string {
 	case "ptr":
 		return "Option " + p.ltyA(t.elem, qual)
 	case "struct":
+		if p.tg.digest {
+			return t.name + " F BO"
+		}
 		if qual {
 			return p.tg.ns + "." + t.name
 		}
@@ -274,7 +346,7 @@ func (p *impPkg) ltyA(t *ity, qual bool) string {
 
 func (p *impPkg) zero(t *ity) string {
 	switch t.k {
-	case "int", "byte", "uint64":
+	case "int", "byte", "uint64", "int64":
 		return "0"
 	case "bool":
 		return "false"
@@ -291,7 +363,29 @@ func (p *impPkg) zero(t *ity) string {
 	case "ptr":
 		return "none"
 	case "struct":
+		if p.tg.digest {
+			var parts []string
+			for _, fl := range p.structs[t.name] {
+				if fl.ty.k == "abs" {
+					die("imp: zero value of %s: the field %s has an abstract (interface) type", t.name, fl.name)
+				}
+				parts = append(parts, fl.name+" := "+p.zero(fl.ty))
+			}
+			return "{ " + strings.Join(parts, ", ") + " }"
+		}
 		return "{}"
+	case "grp":
+		return "uninit"
+	case "frel":
+		return "(List.replicate limbs.toNat 0)"
+	case "array":
+		return fmt.Sprintf("List.replicate %d %s", t.n, p.zero(t.elem))
+	case "bigint":
+		return "0"
+	case "elem":
+		if p.tg.digest {
+			return "fZero"
+		}
 	}
 	return "default"
 }
@@ -299,18 +393,23 @@ func (p *impPkg) zero(t *ity) string {
 // ---------------------------------------------------------------------------------------------- loading
 
 func loadImp(tg impTarget) *impPkg {
-	p := &impPkg{tg: tg, fset: token.NewFileSet(), structs: map[string][]impField{}, errVars: map[string]string{}, funcs: map[string]*ast.FuncDecl{}, absDecl: map[string]*ast.FuncDecl{}, translated: map[string]*impSig{}}
+	p := &impPkg{tg: tg, fset: token.NewFileSet(), structs: map[string][]impField{}, errVars: map[string]string{}, funcs: map[string]*ast.FuncDecl{}, methods: map[string]*ast.FuncDecl{}, absDecl: map[string]*ast.FuncDecl{}, translated: map[string]*impSig{}, grpTranslated: map[string]*impSig{}, digMethods: map[string]*impSig{},
+		consts: map[string]string{}, imports: map[string]string{}, elemMeth: map[string]*impSig{}}
 	f, err := parser.ParseFile(p.fset, filepath.Join(repo, tg.dir, tg.file), nil, parser.ParseComments)
 	if err != nil {
 		die("imp: parse: %v", err)
 	}
+	if tg.mode == "h2f" {
+		p.loadH2F(f)
+	}
+	p.file = f
 	// pass 1: struct names (so that field types can refer to structs declared later)
 	var specs []*ast.TypeSpec
 	for _, d := range f.Decls {
 		if gd, ok := d.(*ast.GenDecl); ok && gd.Tok == token.TYPE {
 			for _, s := range gd.Specs {
 				ts := s.(*ast.TypeSpec)
-				if _, ok := ts.Type.(*ast.StructType); ok {
+				if _, ok := ts.Type.(*ast.StructType); ok && tg.grp == "" {
 					p.structs[ts.Name.Name] = nil
 					p.order = append(p.order, ts.Name.Name)
 					specs = append(specs, ts)
@@ -350,8 +449,39 @@ func loadImp(tg impTarget) *impPkg {
 				}
 			}
 		case *ast.FuncDecl:
-			p.funcs[v.Name.Name] = v
+			if v.Recv != nil && len(v.Recv.List) == 1 {
+				p.methods[strings.TrimPrefix(exprText(v.Recv.List[0].Type), "*")+"."+v.Name.Name] = v
+			}
+			if tg.grp != "" && (v.Recv == nil || len(v.Recv.List) != 1 || exprText(v.Recv.List[0].Type) != "*"+tg.grp) {
+				continue // a point-type target: only the methods of that type are targets
+			}
+			if tg.digest && v.Recv == nil { // a method and a package-level function may share their name (Sum)
+				p.funcs["pkg"+v.Name.Name] = v
+			} else {
+				p.funcs[v.Name.Name] = v
+			}
 		}
+	}
+	for _, gd := range tg.guards {
+		in := p.funcs[gd.inner]
+		if in == nil {
+			continue
+		}
+		out := p.funcs[gd.name]
+		if out == nil {
+			die("imp: %s: %s without %s", tg.file, gd.inner, gd.name)
+		}
+		var buf bytes.Buffer
+		doc := out.Doc
+		out.Doc = nil
+		printer.Fprint(&buf, p.fset, out)
+		out.Doc = doc
+		if got := strings.Join(strings.Fields(buf.String()), " "); got != gd.text {
+			die("imp: %s: %s is not the accepted panic guard around %s:\n  %s", tg.file, gd.name, gd.inner, got)
+		}
+		in.Name = ast.NewIdent(gd.name)
+		p.funcs[gd.name] = in
+		delete(p.funcs, gd.inner)
 	}
 	// abstract package-local functions: found in any non-test file of the package
 	if len(tg.abstract) > 0 {
@@ -485,6 +615,9 @@ func (p *impPkg) translateFunc(name string) string {
 	if fd == nil || fd.Body == nil {
 		die("imp: %s/%s: function %s not found", p.tg.dir, p.tg.file, name)
 	}
+	if p.tg.grp != "" {
+		renameShadowing(fd)
+	}
 	f := &impFn{p: p, fd: fd, name: name, nonNil: map[string]bool{}}
 	f.push()
 	var params []string
@@ -502,7 +635,7 @@ func (p *impPkg) translateFunc(name string) string {
 		params = append(params, "("+lname(f.recv)+" : "+p.lty(t, false)+")")
 	}
 	for _, fl := range fd.Type.Params.List {
-		if _, ok := fl.Type.(*ast.StarExpr); ok && p.goType(fl.Type).k != "bigint" {
+		if _, ok := fl.Type.(*ast.StarExpr); ok && p.goType(fl.Type).k != "bigint" && !(p.goType(fl.Type).k == "ptr" && (p.goType(fl.Type).elem.k == "grp" || p.goType(fl.Type).elem.k == "aff")) {
 			p.die(fl, "pointer parameter (outside the subset: only the receiver is passed by reference)")
 		}
 		t0 := p.paramType(fl.Type)
@@ -534,13 +667,27 @@ func (p *impPkg) translateFunc(name string) string {
 			if len(fl.Names) > 0 {
 				p.die(fl, "named results")
 			}
+			if _, isPtr := fl.Type.(*ast.StarExpr); isPtr && p.tg.mode == "h2f" && f.recvTy != nil && f.recvTy.k == "elem" && len(fd.Type.Results.List) == 2 {
+				// `func (z *Element) M(…) (*Element, error)`: the returned pointer is z or nil: Option F
+				f.results = append(f.results, p.goType(fl.Type))
+				continue
+			}
 			f.results = append(f.results, p.paramType(fl.Type))
 		}
 	}
-	if f.recv != "" && f.recvTy.k == "elem" && len(f.results) == 1 && f.results[0].k == "elem" {
+	if f.recv != "" && (f.recvTy.k == "elem" || f.recvTy.k == "grp") && len(f.results) == 1 && f.results[0].k == f.recvTy.k {
 		// `func (z *Element) M(…) *Element`: the methods of the element type return their receiver; the def returns the new value of z
 		f.retSelf = true
 		f.results = nil
+		if p.tg.mode == "h2f" {
+			sig := &impSig{}
+			for _, fl := range fd.Type.Params.List {
+				for range fl.Names {
+					sig.params = append(sig.params, p.paramType(fl.Type))
+				}
+			}
+			defer func() { p.elemMeth[name] = sig }()
+		}
 	}
 	u := &iuses{}
 	c := &ictx{uses: u,
@@ -560,6 +707,9 @@ func (p *impPkg) translateFunc(name string) string {
 		return c.ret("()")
 	}
 	f.push()
+	if p.tg.grp != "" {
+		f.checkRecvAlias()
+	}
 	body := f.seq(fd.Body.List, nil, c, "  ", nil, true)
 	if f.evRecv {
 		body = "  let " + lname(f.recv) + " : " + p.lty(f.recvTy, false) + " := []  -- calls of the callback, in order\n" + body
@@ -579,6 +729,41 @@ func (p *impPkg) translateFunc(name string) string {
 		}
 		p.translated[name] = sig
 	}
+	if f.retSelf && f.recvTy.k == "grp" && len(f.fuels) == 0 && !u.W && !u.H && !u.S && !u.B && !f.usesNumCPU {
+		sig := &impSig{result: f.recvTy}
+		for _, fl := range fd.Type.Params.List {
+			for range fl.Names {
+				sig.params = append(sig.params, p.paramType(fl.Type))
+			}
+		}
+		p.grpTranslated[name] = sig
+	}
+	if p.tg.digest && f.recv == "" {
+		digestArgNames[name] = ""
+		for _, fl := range fd.Type.Params.List {
+			for _, n := range fl.Names {
+				digestArgNames[name] += " " + lname(n.Name)
+			}
+		}
+	}
+	if p.tg.digest && f.recv != "" && !f.evRecv {
+		if len(f.fuels) != 0 || u.W || u.H || u.S || u.B || f.usesNumCPU {
+			p.die(fd, "digest method with fuel / hash parameters")
+		}
+		sig := &impSig{results: f.results}
+		digestArgNames[name] = " " + lname(f.recv)
+		for _, fl := range fd.Type.Params.List {
+			for _, n := range fl.Names {
+				digestArgNames[name] += " " + lname(n.Name)
+			}
+		}
+		for _, fl := range fd.Type.Params.List {
+			for range fl.Names {
+				sig.params = append(sig.params, p.paramType(fl.Type))
+			}
+		}
+		p.digMethods[name] = sig
+	}
 	var b strings.Builder
 	for _, h := range f.helpers {
 		b.WriteString(h + "\n")
@@ -588,13 +773,24 @@ func (p *impPkg) translateFunc(name string) string {
 	return b.String()
 }
 
+var famSigs = map[string]string{} // "<ns>.<fn>" -> Lean type of the translated method of a group-level target
+
 // impOnly restricts runImp to one sub-pass (the basename of the output file; all Exp_<pkg> files form the sub-pass "Exp")
 var impOnly string
 
 func impPassOf(out string) string {
+	// a family of per-package files <Fam>_<pkg>.lean + <Fam>All.lean is ONE sub-pass <Fam> (same rule in bin/check)
 	b := strings.TrimSuffix(filepath.Base(out), ".lean")
-	if strings.HasPrefix(b, "Exp_") || b == "ExpAll" {
-		return "Exp"
+	if i := strings.Index(b, "_"); i > 0 {
+		return b[:i]
+	}
+	if strings.HasSuffix(b, "All") && len(b) > 3 {
+		return b[:len(b)-3]
+	}
+	for _, fam := range grpFamilies {
+		if strings.HasPrefix(b, fam.name+"_") || b == fam.name+"All" {
+			return fam.name
+		}
 	}
 	return b
 }
@@ -609,10 +805,19 @@ func impPasses() []string {
 			res = append(res, p)
 		}
 	}
-	return res
+	for _, fam := range grpFamilies {
+		res = append(res, fam.name)
+	}
+	return append(res, "H2F", "Set", "KzgOpen") // imp_h2f.go; impkzg.go: Gen/Imp/KzgOpen_<curve>.lean
 }
 
 func runImp() {
+	if impOnly == "" || impOnly == "KzgOpen" {
+		runKzgOpen() // impkzg.go
+		if impOnly != "" {
+			return
+		}
+	}
 	// Element.Exp of every field package (template-generated: the texts must be identical up to the package name, which the
 	// generated `rfl` lemmas of Gen/Imp/ExpAll.lean check)
 	targets := append([]impTarget{}, impTargets...)
@@ -625,6 +830,35 @@ func runImp() {
 		}
 		targets = append(targets, impTarget{dir: d, file: "element.go", ns: "Exp_" + n, out: "Imp/Exp_" + n + ".lean", funcs: []string{"Exp"}, elem: "Element"})
 	}
+	// Hash (hash_to_field) and SetBigInt of every field package (imp_h2f.go)
+	for _, d := range fieldDirs {
+		n := leanName(d)
+		targets = append(targets, impTarget{dir: d, file: "element.go", ns: "H2F_" + n, out: "Imp/H2F_" + n + ".lean", funcs: []string{"SetBigInt", "Hash"}, elem: "Element", mode: "h2f"})
+	}
+	targets = append(targets, impTarget{dir: "ecc/bn254/fr", file: "element.go", ns: "H2F_generic", out: "Imp/H2F_generic.lean", funcs: []string{"SetBigInt", "Hash"}, elem: "Element", mode: "h2f"})
+	// the lenient setters SetBigInt / SetString / SetInt64 of every field package (C08; a pass of its own: Gen/Imp/Set_<pkg>.lean)
+	setFuncs := []string{"SetBigInt", "SetString", "SetInt64"}
+	for _, d := range fieldDirs {
+		n := leanName(d)
+		targets = append(targets, impTarget{dir: d, file: "element.go", ns: "Set_" + n, out: "Imp/Set_" + n + ".lean", funcs: setFuncs, elem: "Element", mode: "h2f"})
+	}
+	targets = append(targets, impTarget{dir: "ecc/bn254/fr", file: "element.go", ns: "Set_generic", out: "Imp/Set_generic.lean", funcs: setFuncs, elem: "Element", mode: "h2f"})
+	defer func() {
+		if impOnly == "" || impOnly == "Set" {
+			writeSetAll(expNames)
+		}
+	}()
+	defer func() {
+		if impOnly == "" || impOnly == "H2F" {
+			writeH2FAll(expNames)
+		}
+	}()
+	targets = append(targets, digestTargets()...)
+	defer func() {
+		if impOnly == "" || impOnly == "Mimc" {
+			emitMimcAll()
+		}
+	}()
 	defer func() {
 		if impOnly != "" && impOnly != "Exp" {
 			return
@@ -653,13 +887,37 @@ func runImp() {
 		b.WriteString("]\n\ntheorem allExp_same : ∀ e ∈ allExp, @e.2 = @Exp_bn254_fr.Exp := by\n  intro e he\n  simp only [allExp, List.mem_cons, List.not_mem_nil, or_false] at he\n  rcases he with " + strings.TrimSuffix(strings.Repeat("rfl | ", len(expNames)), " | ") + " <;> first | rfl | (simp only []; first | " + strings.Join(sameNames(expNames), " | ") + ")\n\nend GV.Gen.Imp.ExpAll\n")
 		writeFile("Imp/ExpAll.lean", b.String())
 	}()
+	famInfos := map[string][]impLoopInfo{} // target ns -> loops
+	for _, fam := range grpFamilies {
+		fam := fam
+		targets = append(targets, fam.targets()...)
+		defer func() {
+			if impOnly != "" && impOnly != fam.name {
+				return
+			}
+			writeFile("Imp/"+fam.name+"All.lean", fam.allFile(famInfos))
+		}()
+	}
 	for _, tg := range targets {
 		if impOnly != "" && impPassOf(tg.out) != impOnly {
 			continue
 		}
 		impAbsParams, impAbsArgs = "", ""
-		if tg.elem != "" {
+		h2fGeneric = strings.HasSuffix(tg.ns, "_generic")
+		impExtraReserved = nil
+		if tg.grp != "" {
+			impAbsParams, impAbsArgs = grpAbsParams, grpAbsArgs
+			impExtraReserved = grpReserved
+			if tg.ext {
+				impAbsParams, impAbsArgs = grpExtParams, grpExtArgs
+				impExtraReserved = grpExtReserved
+			}
+		}
+		if tg.elem != "" && tg.mode == "" {
 			impAbsParams, impAbsArgs = " {F : Type} (mul : F → F → F) (one : F) (inv : F → F)", " mul one inv"
+		}
+		if tg.digest {
+			impAbsParams, impAbsArgs = digestAbsParams, digestAbsArgs
 		}
 		out := filepath.Join(outDir, tg.out)
 		dieHook = func() { os.Remove(out) } // a failed translation must not leave the previous run's file behind
@@ -667,15 +925,27 @@ func runImp() {
 		var b strings.Builder
 		fmt.Fprintf(&b, "/- GENERATED by tools/goslp (imp.go) from /repo/%s/%s on every run. DO NOT EDIT.\n", tg.dir, tg.file)
 		b.WriteString("   Statement-by-statement translation of imperative Go; the value vocabulary and its semantics: Model/GoImp.lean. -/\n")
-		b.WriteString("import GnarkVerif.Model.GoImp\n\nset_option linter.unusedVariables false\n\n")
+		if tg.grp != "" {
+			b.WriteString("import GnarkVerif.Model.GoImpGrp\n")
+		} else {
+			b.WriteString("import GnarkVerif.Model.GoImp\n")
+		}
+		if tg.digest {
+			b.WriteString(digestImports(tg))
+		}
+		b.WriteString("\nset_option linter.unusedVariables false\n\n")
 		fmt.Fprintf(&b, "namespace GV.Gen.Imp.%s\nopen GV.GoImp\n\n", tg.ns)
-		if tg.elem != "" { // a field package: only the targeted functions matter
+		if tg.elem != "" || tg.grp != "" { // a field / curve package: only the targeted functions matter
 			p.errOrd, p.order = nil, nil
 		}
 		for _, e := range p.errOrd {
 			fmt.Fprintf(&b, "/-- `var %s = errors.New(%s)` -/\n@[reducible] def %s : Err := Err.sentinel %q\n", e, strings.ReplaceAll(p.errVars[e], "-/", "- /"), e, e)
 		}
 		b.WriteString("\n")
+		if tg.digest {
+			b.WriteString(p.digestPrelude())
+			p.order = nil
+		}
 		for _, sn := range p.structOrder() {
 			fmt.Fprintf(&b, "structure %s where\n", sn)
 			for _, fl := range p.structs[sn] {
@@ -716,10 +986,31 @@ func runImp() {
 				}
 			}
 		}
+		var bodies strings.Builder
 		for _, fn := range tg.funcs {
-			b.WriteString(p.translateFunc(fn))
+			if tg.mode == "h2f" {
+				impAbsParams, impAbsArgs = h2fParams(fn)
+			}
+			bodies.WriteString(p.translateFunc(fn))
 		}
+		if tg.mode == "h2f" {
+			b.WriteString(p.h2fHeader())
+		}
+		b.WriteString(bodies.String())
 		fmt.Fprintf(&b, "end GV.Gen.Imp.%s\n", tg.ns)
+		famInfos[tg.ns] = p.loopInfos
+		for _, fn := range tg.funcs {
+			if sig := p.grpTranslated[fn]; sig != nil && tg.grp != "" {
+				ty := "{G : Type} → (G → G → G) → (G → G) → (G → G) → G → G → G"
+				if tg.ext {
+					ty = "{G : Type} → {A : Type} → (G → G → G) → (G → G) → (G → G) → G → G → (A → G) → (G → G) → (Int → Int × Int) → Int → (Int → List Nat) → (List Nat → Int) → G"
+				}
+				for _, t := range sig.params {
+					ty += " → " + p.ltyA(t, false)
+				}
+				famSigs[tg.ns+"."+fn] = ty + " → G"
+			}
+		}
 		writeFile(tg.out, b.String())
 		dieHook = nil
 	}
